@@ -39,9 +39,11 @@ static void c05_child(const void *job, size_t n) {
 		env_push_quiet(f, fl);
 	}
 	bidib_flush();
+	vs_window(1);
 	int t1 = vs_spawn(t1_body, NULL), t2 = vs_spawn(t2_body, NULL), t3 = -1;
 	if (nthreads >= 3) t3 = vs_spawn(t3_body, NULL);
 	vs_join_tid(t1); vs_join_tid(t2); if (t3 >= 0) vs_join_tid(t3);
+	vs_window(0);
 	hx_quiesce();
 	bidib_flush();
 	expected += variant == 2 ? 2 : 4; if (nthreads >= 3) expected += 2;
